@@ -157,6 +157,43 @@ Theorem C16_session_check_iff : forall K (mac : K -> bytes -> bytes),
 Proof. exact @sess_check_iff. Qed.
 Print Assumptions C16_session_check_iff.
 
+(** [Sessions.NeedRefresh] as the gate reports it. *)
+Theorem C16_session_refresh_advice : forall K (mac : K -> bytes -> bytes),
+  mac_len_law mac -> mac_bytes_law mac ->
+  forall k maxttl t0 ttl d now,
+  is_bytes d -> is_int64 (t0 + eff_ttl maxttl ttl) -> 0 < maxttl <= max_dur ->
+  t0 <= now < t0 + eff_ttl maxttl ttl ->
+  exists left,
+    sess_check mac k now (fst (sess_new mac k maxttl t0 ttl d)) = Some (d, left) /\
+    left = t0 + eff_ttl maxttl ttl - now /\
+    (need_refresh maxttl left = true <-> t0 + eff_ttl maxttl ttl - now < maxttl / 5).
+Proof. exact @session_refresh_advice. Qed.
+Print Assumptions C16_session_refresh_advice.
+
+(** * Signed challenges *)
+
+Theorem C16_challenge_check_iff : forall K (mac : K -> bytes -> bytes), mac_len_law mac -> mac_bytes_law mac ->
+  forall chal_time k w now bs,
+  challenge_check mac chal_time k w now bs = None <->
+  exists d, bs = sign mac k d /\ chal_instant chal_time d <= now <= chal_instant chal_time d + w.
+Proof. exact @challenge_check_iff. Qed.
+Print Assumptions C16_challenge_check_iff.
+
+Theorem C16_challenge_only_issued : forall K (mac : K -> bytes -> bytes), mac_len_law mac -> mac_bytes_law mac ->
+  forall chal_time k w now issued bs,
+  no_forgery mac k issued bs -> challenge_check mac chal_time k w now bs = None ->
+  exists d, In d issued /\ bs = sign mac k d /\
+            chal_instant chal_time d <= now <= chal_instant chal_time d + w.
+Proof. exact @challenge_only_issued. Qed.
+Print Assumptions C16_challenge_only_issued.
+
+Theorem C16_challenge_without_time_rejected : forall K (mac : K -> bytes -> bytes), mac_len_law mac -> mac_bytes_law mac ->
+  forall chal_time k w now d,
+  chal_time d = None -> is_int64 now -> is_int64 w ->
+  challenge_check mac chal_time k w now (sign mac k d) <> None.
+Proof. exact @challenge_without_time_rejected. Qed.
+Print Assumptions C16_challenge_without_time_rejected.
+
 (** * Time tokens *)
 
 Theorem C16_time_token_open_window : forall K (mac : K -> bytes -> bytes),
@@ -375,6 +412,47 @@ Theorem C16_self_token_sound :
 Proof. exact self_verify_sound. Qed.
 Print Assumptions C16_self_token_sound.
 
+(** * Signing side and token exchange *)
+
+Theorem C16_core_sign_key_choice :
+  forall M PM SK (parse_priv : PM -> option SK) (privs : list (bytes * PM)) (card : list (@pubkey M))
+         req now id sk,
+  core_pick parse_priv privs card req now = COk (id, sk) ->
+  exists pm pub,
+    In (id, pm) privs /\ parse_priv pm = Some sk /\
+    (req = [] -> exists p0, (id, pm) = last privs p0) /\ (req <> [] -> id = req) /\
+    find_key card id = Some pub /\ pk_type pub = key_type_rsa /\ key_valid pub now = None.
+Proof. exact (fun M PM SK => @core_pick_sound M PM SK). Qed.
+Print Assumptions C16_core_sign_key_choice.
+
+(** The key chosen for signing at an instant passes all key checks of the
+    verifier at that instant for the same card. *)
+Theorem C16_core_sign_then_verifier :
+  forall M RK (parse_key : M -> option RK) rsa_verify PM SK (parse_priv : PM -> option SK)
+         (privs : list (bytes * PM)) (card : list (@pubkey M)) req now id sk t,
+  core_pick parse_priv privs card req now = COk (id, sk) ->
+  h_kid (t_header t) = id -> h_alg (t_header t) = alg_rs256 ->
+  exists pub, find_key card id = Some pub /\
+    rs_verifier parse_key rsa_verify card t now =
+    match parse_key (pk_mat pub) with
+    | None => Some EKeyParse
+    | Some rk => if rsa_verify rk (t_payload t) (t_sig t) then None else Some EWrongSig
+    end.
+Proof. exact (fun M RK pk rv PM SK => @core_pick_then_verifier M RK pk rv PM SK). Qed.
+Print Assumptions C16_core_sign_then_verifier.
+
+Theorem C16_exchange_sound :
+  forall parse_header parse_claims M RK (parse_key : M -> option RK) rsa_verify S (sess : Z -> bytes -> S)
+         (card : list (@pubkey M)) issuer audience now tok user ttl s,
+  exchange parse_header parse_claims b64_decode_canon parse_key rsa_verify sess
+           card issuer audience now tok user ttl = inl s ->
+  exists t,
+    rs_verify parse_header parse_claims b64_decode_canon parse_key rsa_verify card now tok = JOk t /\
+    field_ok issuer (c_iss (t_claims t)) /\ field_ok audience (c_aud (t_claims t)) /\
+    field_ok user (c_sub (t_claims t)) /\ 0 < ttl /\ s = sess ttl user.
+Proof. exact (fun ph pc M RK pk rv S => @exchange_sound ph pc M RK pk rv S). Qed.
+Print Assumptions C16_exchange_sound.
+
 (** * One-time passcodes *)
 
 (** [short_history]: fewer than 2^63 events, so that the 64-bit attempt counter
@@ -534,6 +612,18 @@ Example C16_jwt_time_wraps :
   check_time (mkC [] [] [] 1800000000 (- Jwt.two63) [] []) 1700000000000000000 = None /\
   check_time (mkC [] [] [] (- Jwt.two63) (- Jwt.two63) [] []) 0 = Some EExpired.
 Proof. exact check_time_wraps. Qed.
+
+(** A challenge on the toy MAC: the window is closed at both ends. *)
+Example C16_challenge_boundary :
+  let ct := fun _ : bytes => Some 100 in
+  let b := sign toy_mac 7%N [1; 2; 3]%N in
+  challenge_check toy_mac ct 7%N 10 99 b = Some ChFuture /\
+  challenge_check toy_mac ct 7%N 10 100 b = None /\
+  challenge_check toy_mac ct 7%N 10 110 b = None /\
+  challenge_check toy_mac ct 7%N 10 111 b = Some ChExpired /\
+  challenge_check toy_mac (fun _ => None) 7%N 10 100 b = Some ChExpired /\
+  need_refresh 1000 199 = true /\ need_refresh 1000 200 = false /\ need_refresh 0 5 = false.
+Proof. vm_compute. repeat split. Qed.
 
 (** Session and time-token boundaries on a concrete instance. *)
 Example C16_session_boundary :
